@@ -50,9 +50,11 @@ VLt(a, b) == VLeq(a, b) /\ a # b
 VText(v) == ToString(v[1]) \o "." \o ToString(v[2]) \o "." \o ToString(v[3])
 
 SeqSet(s) == {s[i] : i \in 1..Len(s)}
-\* TLC keeps [x \in S |-> e] and {x \in S : p} symbolic (closures) even inside cached constant
-\* definitions and re-evaluates them at every use; Table / Force make the explicit function /
-\* set once.  (Run with one worker: TLC caches such constants per worker thread only.)
+\* TLC keeps [x \in S |-> e] and {x \in S : p} symbolic (closures) and re-evaluates them at
+\* every use; Table / Force make the explicit function / set.  The derived tables below
+\* (XxxOf) are computed once, in dependency order, by the assumption MemoInit at the end of
+\* this module and kept in TLC registers 21.. (an ASSUME sets the registers of every worker);
+\* XxxOf == TLCGet(k) reads them back, XxxOfDef is the definition.
 Table(f) == f @@ <<>>
 Force(S) == DOMAIN ([x \in S |-> TRUE] @@ <<>>)
 RestrictTo(f, S) == [k \in S |-> f[k]]
@@ -77,10 +79,13 @@ ValEq(a, b) == IF IsNum(a) /\ IsNum(b) THEN FBits(a.v, b.v) ELSE a = b
 
 ---------------------------------------------------------------------------
 (* the current models *)
-CallIdsOf == Table([m \in ModelNames |-> Force({Models[m].call[i].id : i \in 1..Len(Models[m].call)})])
-PdIdsOf == Table([m \in ModelNames |->
+CallIdsOf == TLCGet(21)
+CallIdsOfDef == Table([m \in ModelNames |-> Force({Models[m].call[i].id : i \in 1..Len(Models[m].call)})])
+PdIdsOf == TLCGet(22)
+PdIdsOfDef == Table([m \in ModelNames |->
               Force({Models[m].call[i].id : i \in {j \in 1..Len(Models[m].call) : Models[m].call[j].pd}})])
-SldIdsOf == Table([m \in ModelNames |->
+SldIdsOf == TLCGet(23)
+SldIdsOfDef == Table([m \in ModelNames |->
               Force({Models[m].call[i].id : i \in {j \in 1..Len(Models[m].call) : Models[m].call[j].sld}})])
 
 \* attribute suffixes as old SasView wrote them (convert.py PD_DOT, in its order)
@@ -97,7 +102,8 @@ UnderOf(d) == CASE d = ".width" -> "_pd" [] d = ".npts" -> "_pd_n"
 LegalKeys(m, us) ==
     {id \o d : id \in CallIdsOf[m], d \in AnyDots}
     \cup {id \o (IF us THEN UnderOf(d) ELSE d) : id \in PdIdsOf[m], d \in PdDots}
-LegalKeysOf == Table([m \in ModelNames |-> Table([us \in BOOLEAN |-> Force(LegalKeys(m, us))])])
+LegalKeysOf == TLCGet(24)
+LegalKeysOfDef == Table([m \in ModelNames |-> Table([us \in BOOLEAN |-> Force(LegalKeys(m, us))])])
 
 ---------------------------------------------------------------------------
 (* Target: convert.py _conversion_target and the model_version gate *)
@@ -110,7 +116,8 @@ ModelOf(new) ==
     IF new \in ModelNames THEN new
     ELSE LET S == {m \in ModelNames : \E k \in 0..9 : new = m \o ":" \o ToString(k)}
          IN IF S = {} THEN "" ELSE CHOOSE m \in S : TRUE
-EntryModel == Table([i \in 1..NE |-> ModelOf(Entries[i].new)])
+EntryModel == TLCGet(25)
+EntryModelDef == Table([i \in 1..NE |-> ModelOf(Entries[i].new)])
 ReturnedName(i) == IF Variant = "asWritten" THEN Entries[i].new ELSE EntryModel[i]
 
 ---------------------------------------------------------------------------
@@ -154,8 +161,10 @@ ExpandW(i) ==
     IF m = "" \/ Entries[i].new # m THEN Entries[i].map        \* ':' entries use the bare table
     ELSE ControlAsWritten(ExpandK(Entries[i].map, Models[m].kernel, 1), Models[m].kernel)
 \* the translation the property means (RowsOf) and the one the code used as written (RowsW)
-RowsOf == Table([i \in 1..NE |-> Expand(i)])
-RowsW == Table([i \in 1..NE |-> ExpandW(i)])
+RowsOf == TLCGet(26)
+RowsOfDef == Table([i \in 1..NE |-> Expand(i)])
+RowsW == TLCGet(27)
+RowsWDef == Table([i \in 1..NE |-> ExpandW(i)])
 
 \* old key -> new key ("" = dropped), for every row and attribute suffix; first row wins
 RowMap(r) ==
@@ -164,14 +173,16 @@ RowMap(r) ==
             IF r.newnone THEN "" ELSE r.new \o (CHOOSE d \in DotSet : r.old \o d = k)]
 RECURSIVE MergeRows(_, _)
 MergeRows(rows, j) == IF j > Len(rows) THEN <<>> ELSE RowMap(rows[j]) @@ MergeRows(rows, j + 1)
-KeyMapOf == Table([i \in 1..NE |-> MergeRows(RowsOf[i], 1)])
+KeyMapOf == TLCGet(28)
+KeyMapOfDef == Table([i \in 1..NE |-> MergeRows(RowsOf[i], 1)])
 \* new key -> old key of the (first) row producing it
 InvRowMap(r) ==
     IF r.oldnone \/ r.newnone THEN <<>>
     ELSE [k \in {r.new \o d : d \in DotSet} |-> r.old \o (CHOOSE d \in DotSet : r.new \o d = k)]
 RECURSIVE MergeInv(_, _)
 MergeInv(rows, j) == IF j > Len(rows) THEN <<>> ELSE InvRowMap(rows[j]) @@ MergeInv(rows, j + 1)
-InvMapOf == Table([i \in 1..NE |-> MergeInv(RowsOf[i], 1)])
+InvMapOf == TLCGet(29)
+InvMapOfDef == Table([i \in 1..NE |-> MergeInv(RowsOf[i], 1)])
 
 ---------------------------------------------------------------------------
 (* HandConvert: convert.py _hand_convert_3_1_2_to_4_1, on old names.      *)
@@ -261,7 +272,8 @@ MagMap(m) ==
                                    IN x[1][2] \o "_" \o x[1][1] \o x[2]]
        @@ [k \in {KU(y) : y \in U} |-> LET y == CHOOSE y \in U : KU(y) = k
                                        IN "up_" \o y[1] \o y[2]]
-MagMapOf == Table([m \in ModelNames |-> IF Models[m].nmag > 0 THEN Table(MagMap(m)) ELSE <<>>])
+MagMapOf == TLCGet(30)
+MagMapOfDef == Table([m \in ModelNames |-> IF Models[m].nmag > 0 THEN Table(MagMap(m)) ELSE <<>>])
 AngleMap == Table([k \in {"up_angle" \o d : d \in AnyDots} |->
                 "up_phi" \o (CHOOSE d \in AnyDots : "up_angle" \o d = k)])
 MapKeys(P, map) ==
@@ -301,7 +313,8 @@ UnderMap(m) ==
     LET S == CallIdsOf[m] \X PdDots IN
     [k \in {x[1] \o x[2] : x \in S} |-> LET x == CHOOSE x \in S : x[1] \o x[2] = k
                                         IN x[1] \o UnderOf(x[2])]
-UnderMapOf == Table([m \in ModelNames |-> Table(UnderMap(m))])
+UnderMapOf == TLCGet(31)
+UnderMapOfDef == Table([m \in ModelNames |-> Table(UnderMap(m))])
 Underscore(P, us, m) == IF us THEN MapKeys(P, UnderMapOf[m]) ELSE P
 
 ---------------------------------------------------------------------------
@@ -359,8 +372,10 @@ FinalOfRow(i, r) ==
     LET vi == CHOOSE v \in 1..NV : Versions[v] = Entries[i].version
     IN  IF r.newnone THEN [model |-> EntryModel[i], base |-> ""] ELSE ChainBase(r.new, i, vi)
 \* cached per entry and row
-VIdxOf == Table([i \in 1..NE |-> CHOOSE v \in 1..NV : Versions[v] = Entries[i].version])
-FinalOf == Table([i \in 1..NE |-> Table([j \in 1..Len(RowsOf[i]) |-> FinalOfRow(i, RowsOf[i][j])])])
+VIdxOf == TLCGet(32)
+VIdxOfDef == Table([i \in 1..NE |-> CHOOSE v \in 1..NV : Versions[v] = Entries[i].version])
+FinalOf == TLCGet(33)
+FinalOfDef == Table([i \in 1..NE |-> Table([j \in 1..Len(RowsOf[i]) |-> FinalOfRow(i, RowsOf[i][j])])])
 
 ---------------------------------------------------------------------------
 (* Table-level checks, every entry and every row (no code is executed)    *)
@@ -385,10 +400,33 @@ EntryDefects(i) ==
     IN (IF EntryModel[i] = "" \/ EntryModel[i] \notin Current THEN {Key("target-model-missing")} ELSE {})
        \cup (IF \E j \in 1..(i - 1) : Entries[j].version = e.version /\ Entries[j].old = e.old
              THEN {Key("duplicate-old-model-name")} ELSE {})
-DefectsOf == Table([i \in 1..NE |-> Force(EntryDefects(i) \cup (IF EntryModel[i] = "" THEN {} ELSE RowDefects(i)))])
-TableDefects == Force(UNION {DefectsOf[i] : i \in 1..NE})
+DefectsOf == TLCGet(34)
+DefectsOfDef == Table([i \in 1..NE |-> Force(EntryDefects(i) \cup (IF EntryModel[i] = "" THEN {} ELSE RowDefects(i)))])
+TableDefects == TLCGet(35)
+TableDefectsDef == Force(UNION {DefectsOf[i] : i \in 1..NE})
 \* rows that take part in scenarios: old name given, not reported above
-DefectiveOldOf == Table([i \in 1..NE |->
+DefectiveOldOf == TLCGet(36)
+DefectiveOldOfDef == Table([i \in 1..NE |->
     Force({d.old : d \in {x \in DefectsOf[i] :
                       x.class \in {"stale-row", "duplicate-old-name", "target-collision"}}})])
+---------------------------------------------------------------------------
+(* memo tables, in dependency order *)
+MemoInit ==
+    /\ TLCSet(21, CallIdsOfDef)
+    /\ TLCSet(22, PdIdsOfDef)
+    /\ TLCSet(23, SldIdsOfDef)
+    /\ TLCSet(24, LegalKeysOfDef)
+    /\ TLCSet(25, EntryModelDef)
+    /\ TLCSet(26, RowsOfDef)
+    /\ TLCSet(27, RowsWDef)
+    /\ TLCSet(28, KeyMapOfDef)
+    /\ TLCSet(29, InvMapOfDef)
+    /\ TLCSet(30, MagMapOfDef)
+    /\ TLCSet(31, UnderMapOfDef)
+    /\ TLCSet(32, VIdxOfDef)
+    /\ TLCSet(33, FinalOfDef)
+    /\ TLCSet(34, DefectsOfDef)
+    /\ TLCSet(35, TableDefectsDef)
+    /\ TLCSet(36, DefectiveOldOfDef)
+ASSUME MemoInit
 =============================================================================
